@@ -61,9 +61,9 @@ def realise(hist):
     return fw, script
 
 
-def run_script(fw, script, seed, variant=0, huge=False, model=False, nconn=1):
+def run_script(fw, script, seed, variant=0, huge=False, model=False, nconn=1, server=False):
     from .c19_world import World
-    w = World(fw, seed, nconn)
+    w = World(fw, seed, nconn, server)
     w.huge = huge
     sc = []
     for st in script:
@@ -299,7 +299,7 @@ def judge(ctx, items, shards, jvm_opts):
 def _report(ctx, meta, w, clause, ln):
     wit = w.witness(clause, ln)
     ctx.violation(clause, wit, {'fw': meta['fw'], 'script': meta['script'], 'seed': meta['seed'], 'variant': meta.get('variant', 0),
-                                'huge': meta.get('huge', False), 'model': meta.get('model', False), 'nconn': meta.get('nconn', 1),
+                                'huge': meta.get('huge', False), 'model': meta.get('model', False), 'nconn': meta.get('nconn', 1), 'server': meta.get('server', False),
                                 'origin': meta['origin'], 'line': ln,
                                 'trace': w.log[:80], 'notes': w.notes[:5]})
 
@@ -308,7 +308,7 @@ def run_replay(path):
     rec = json.load(open(path))
     d = rec['detail']
     script = [tuple(st) for st in d['script']]
-    w = run_script(d['fw'], script, d['seed'], d.get('variant', 0), d.get('huge', False), d.get('model', False), d.get('nconn', 1))
+    w = run_script(d['fw'], script, d['seed'], d.get('variant', 0), d.get('huge', False), d.get('model', False), d.get('nconn', 1), d.get('server', False))
     verdicts, _ = tlc.validate_traces(SPEC, 'NodeRpcTrace', 'NodeRpcTrace.cfg', [w.log], shards=1)
     clause, ln = verdicts[0]
     print('fw=%s script=%s' % (d['fw'], script))
@@ -509,7 +509,8 @@ def run(tier, replay=None):
         for v in (60, 61, 62, 63, 64, 65):
             add_struct([('S', 's', 'plain', 'ok'), ('Rb', 0, 4096), ('P', 1, v, False), ('Rb', 1, 4096)], ctx.seed * 19 + j)
     for j in range(3 if quick else 12):
-        add_struct([('S', 'h', 'plain', 'ok')], ctx.seed * 23 + j, 'huge-enum')
+        add_struct([('S', 'h', 'plain', 'ok')], ctx.seed * 23 + j, 'huge-enum')                       # 4 KiB reads
+        add_struct([('S', 'h', 'plain', 'ok'), ('Rb', 0, 33000 + 1000 * j), ('Rb', 0, 1 << 20)], ctx.seed * 23 + j, 'huge-enum')   # two reads
         add_struct([('S', 's', 'plain', 'ok'), ('Rb', 0, 4096), ('P', 1, 7, False)], ctx.seed * 23 + j, 'huge-enum')
     from .c19_world import World
     for j in range(1 if quick else 4):
@@ -549,6 +550,25 @@ def run(tier, replay=None):
         seed = ctx.seed + 101 * j
         items.append(({'fw': '--', 'script': script, 'seed': seed, 'origin': 'two-connections', 'nconn': 2},
                       run_script('--', script, seed, nconn=2)))
+
+    # 2d. a callee process holding two connections on one channel (node.Server with two clients, one
+    # Protocol per socket): both peers call at the same time (same call id on each connection), every
+    # completion order, answers read at once or after each completion
+    for order in ((1, 2), (2, 1)):
+        for interleave in (False, True):
+            for first in (0, 1):
+                script = [('S', 's', 'plain', 'ok', first), ('S', 's', 'plain', 'ok', 1 - first), ('Rb', 1, 4096, 0), ('Rb', 1, 4096, 1)]
+                for sid in order:
+                    script.append(('P', sid, 1, False))
+                    if interleave:
+                        script += [('Rb', 0, 4096, 0), ('Rb', 0, 4096, 1)]
+                seed = ctx.seed + 7 * len(items)
+                items.append(({'fw': '--', 'script': script, 'seed': seed, 'origin': 'server-two-clients', 'nconn': 2, 'server': True},
+                              run_script('--', script, seed, nconn=2, server=True)))
+    for j in range(2 if quick else 10):     # and the server with a single client behaves like any peer
+        script = [('S', 's', 'plain', 'ok', 0), ('S', 'b', 'plain', 'ok', 0), ('Rb', 1, 4096, 0), ('P', 1, 1, False)]
+        items.append(({'fw': '--', 'script': script, 'seed': ctx.seed + j, 'origin': 'server-one-client', 'nconn': 1, 'server': True},
+                      run_script('--', script, ctx.seed + j, nconn=1, server=True)))
 
     # 3. random longer scenarios (code -> spec)
     nrand = 150 if quick else 5000
